@@ -67,3 +67,23 @@ pub type Result<T> = std::result::Result<T, Error>;
 pub mod rhai {
     pub use rhai::*;
 }
+
+// Verification hooks: re-export crate-private text functions so that an
+// external harness can drive them directly. Compiled only with
+// `--cfg casbin_verif`; nothing here changes behaviour.
+#[cfg(casbin_verif)]
+pub mod verif_hooks {
+    pub use crate::util::{
+        csv_field, escape_assertion, escape_eval, parse_csv_line,
+        remove_comment,
+    };
+
+    /// Parses an ini-style model text and returns its (section, key, value)
+    /// triples sorted by section and key.
+    pub async fn config_entries(
+        text: &str,
+    ) -> crate::Result<Vec<(String, String, String)>> {
+        let cfg = crate::config::Config::from_str(text).await?;
+        Ok(cfg.verif_entries())
+    }
+}
